@@ -146,9 +146,9 @@ Definition rrset_new (l : list rr) : outcome (list rr) :=
   match l with
   | [] => Err 3
   | first :: _ =>
-      if r_type first =? 46 then Ok l
+      if r_type first =? rrset_ttl_exempt_rtype then Ok l
       else if forallb (fun r => r_ttl r =? r_ttl first) l then Ok l
-      else Panic 2
+      else if rrset_new_panics_on_mixed_ttl then Panic 2 else Err 4
   end.
 
 Definition arg_val (first : rr) (k : skey) (exp inc : N) (tag : N) : N :=
